@@ -1,4 +1,7 @@
 import Driver.Container
+import Driver.RowPipe
+import Driver.Anim
+import Driver.Opts
 /-
   webpdrv — line protocol: one operation per input line (`op arg arg …`), one canonical
   output line per operation.  Unknown or malformed operations answer `bad-op` (never a default).
@@ -7,7 +10,8 @@ def dispatch (line : String) : String :=
   match (line.trimAscii.toString.splitOn " ").filter (· ≠ "") with
   | [] => "bad-op"
   | op :: args =>
-    match Driver.Container.handle op args with
+    match (Driver.Container.handle op args <|> Driver.RowPipe.handle op args
+           <|> Driver.Anim.handle op args <|> Driver.Opts.handle op args) with
     | some r => r
     | none => "bad-op"
 
